@@ -13,9 +13,48 @@ import (
 type Locker = sync.Locker
 type Cond = sync.Cond
 type Map = sync.Map
-type Pool = sync.Pool
 
 func NewCond(l Locker) *Cond { return sync.NewCond(l) }
+
+// Pool: sync.Pool hands back an arbitrary previously Put item (or calls New), chosen by the runtime
+// (per-P caches, random drops under the race detector) - nondeterminism the explorer would not own.
+// The stand-in is a last-in-first-out free list, one legal behaviour of sync.Pool and the one that
+// maximises reuse; Get and Put are scheduling points under the controlled scheduler.
+type Pool struct {
+	New   func() any
+	mu    sync.Mutex
+	items []any
+}
+
+func (p *Pool) Get() any {
+	if vsched.Active() {
+		vsched.Point("Pool.Get")
+	}
+	p.mu.Lock()
+	if n := len(p.items); n > 0 {
+		x := p.items[n-1]
+		p.items = p.items[:n-1]
+		p.mu.Unlock()
+		return x
+	}
+	p.mu.Unlock()
+	if p.New != nil {
+		return p.New()
+	}
+	return nil
+}
+
+func (p *Pool) Put(x any) {
+	if x == nil {
+		return
+	}
+	if vsched.Active() {
+		vsched.Point("Pool.Put")
+	}
+	p.mu.Lock()
+	p.items = append(p.items, x)
+	p.mu.Unlock()
+}
 
 type Mutex struct {
 	mu sync.Mutex
